@@ -3,14 +3,30 @@
 From Coq Require Export String.
 From V Require Export Base.Bytes Tail.LineReader Tail.FileStream Corr.Hex.
 
-Inductive c16case :=
-| CFS (id : N) (init : option bytes) (ops : list op) (got : list bytes).
+(* run-length form of a line list (consecutive equal lines), for the cases
+   that deliver ~16 000 identical lines *)
+Fixpoint rle (l : list bytes) : list (bytes * nat) :=
+  match l with
+  | [] => []
+  | x :: r =>
+      match rle r with
+      | (y, n) :: t => if bytes_eqb x y then (y, S n) :: t else (x, 1%nat) :: (y, n) :: t
+      | [] => [(x, 1%nat)]
+      end
+  end.
+Definition run_eqb (a b : bytes * nat) : bool := bytes_eqb (fst a) (fst b) && Nat.eqb (snd a) (snd b).
+Definition R (l : bytes) (n : nat) : bytes * nat := (l, n).
 
-Definition c16case_id (c : c16case) : N := match c with CFS i _ _ _ => i end.
+Inductive c16case :=
+| CFS (id : N) (init : option bytes) (ops : list op) (got : list bytes)
+| CFSR (id : N) (init : option bytes) (ops : list op) (got : list (bytes * nat)).
+
+Definition c16case_id (c : c16case) : N := match c with CFS i _ _ _ | CFSR i _ _ _ => i end.
 
 Definition c16case_ok (c : c16case) : bool :=
   match c with
   | CFS _ init ops got => list_eqb bytes_eqb (delivered init ops) got
+  | CFSR _ init ops got => list_eqb run_eqb (rle (delivered init ops)) got
   end.
 
 Definition mismatches (l : list c16case) : list N := failing c16case_ok c16case_id l.
@@ -20,5 +36,6 @@ Definition mismatches (l : list c16case) : list N := failing c16case_ok c16case_
 Definition c16case_ok_old (c : c16case) : bool :=
   match c with
   | CFS _ init ops got => list_eqb bytes_eqb (delivered_old init ops) got
+  | CFSR _ init ops got => list_eqb run_eqb (rle (delivered_old init ops)) got
   end.
 Definition mismatches_old (l : list c16case) : list N := failing c16case_ok_old c16case_id l.
